@@ -62,6 +62,10 @@ pub struct C18State {
 }
 
 fn replay_json(s: &C18State) -> Value {
+    if s.cfg.sweeps == u32::MAX {
+        // the linear endurance run is deterministic: kind, address and the sweep it got to identify it
+        return json!({"world": "w5-endurance", "kind": s.cfg.scanner_kind, "ts": s.cfg.ts, "sweeps": s.sweep + 2});
+    }
     json!({"world": "w5", "kind": s.cfg.scanner_kind, "ts": s.cfg.ts, "tracked": s.cfg.tracked, "sweeps": s.cfg.sweeps, "max_losses": s.cfg.max_losses, "idents": s.cfg.idents, "answers": s.history})
 }
 
@@ -440,6 +444,28 @@ pub fn under_real_fdl(kind: u8, ts: u8, population: &[u8], ttr: Option<u32>) -> 
     }
 }
 
+/// One linear run of `target` sweeps (see run()); returns the final state and the number of probes answered.
+pub fn endurance(kind: u8, ts: u8, target: u32) -> (C18State, u64) {
+    let cfg = Arc::new(C18Cfg { scanner_kind: kind, ts, tracked: vec![1, 62, 125], sweeps: u32::MAX, max_losses: 0, idents: vec![0x1337, 0x0001, 0xFFFF] });
+    let mut s = C18State::new(&cfg);
+    let mut n = 0u64;
+    while s.sweep < target && !s.dead {
+        let (da, idx) = match s.advance_to_tracked() {
+            Some(x) => x,
+            None => break,
+        };
+        let ans = if ((s.sweep / 7) as usize + idx) % 2 == 0 { Ans::Answers } else { Ans::Silent };
+        s.hp_at = ((s.sweep + idx as u32) % 3) as u8;
+        s.history.push(if ans == Ans::Answers { 1 } else { 0 });
+        if s.history.len() > 64 {
+            s.history.drain(..32);
+        }
+        s.deliver(da, ans, Some(idx));
+        n += 1;
+    }
+    (s, n)
+}
+
 pub fn run(tier: Tier) -> ! {
     let c = ctx();
     let mut states = 0u64;
@@ -481,6 +507,18 @@ pub fn run(tier: Tier) -> ! {
     }
     // binding to the real FDL calling pattern
     let pops: Vec<Vec<u8>> = vec![vec![], vec![3], vec![0, 5, 62, 125]];
+    // endurance: one linear run of 600 (thorough 1200) sweeps = 75 000 (150 000) probes per application, the
+    // tracked stations coming and going every few sweeps — past the wrap of any 8- or 16-bit counter of probes
+    for kind in [0u8, 1] {
+        for ts in [0u8, 7] {
+            let target = tier.pick(600u32, 1200);
+            let (s, n) = endurance(kind, ts, target);
+            trans += n;
+            if s.sweep >= target && !s.dead {
+                c.witness("c18_endurance_run");
+            }
+        }
+    }
     for kind in [0u8, 1] {
         for (pop, ttr) in pops.iter().flat_map(|p| [(p, None), (p, Some(256u32))]) {
             match under_real_fdl(kind, 2, pop, ttr) {
@@ -513,13 +551,18 @@ pub fn run(tier: Tier) -> ! {
     ev.bounds = json!({"scanner_addresses": [0,7,125], "tracked_addresses": tier.pick("{0, 2, TS, TS+1, 62, 124, 125}", "{0, 2, TS-1, TS, TS+1, 62, 63, 124, 125}"), "sweeps": tier.pick(4,5), "max_lost_replies": tier.pick(2,3)});
     ev.distinct_outcomes = states;
     ev.extra.insert("per_world".into(), json!(per_world));
-    ev.required_witnesses = vec!["c18_stable_two_sweeps", "c18_member_present", "c18_under_real_fdl_ok"];
+    ev.required_witnesses = vec!["c18_stable_two_sweeps", "c18_member_present", "c18_under_real_fdl_ok", "c18_endurance_run"];
     ev.assumptions.push("a peer answering an FDL status request with SC is non-conforming and outside the alphabet (DESIGN F16)".into());
     finish(ev)
 }
 
 pub fn replay(v: &Value) {
     let r = &v["replay"];
+    if r["world"] == "w5-endurance" {
+        let (s, n) = endurance(r["kind"].as_u64().unwrap() as u8, r["ts"].as_u64().unwrap() as u8, r["sweeps"].as_u64().unwrap() as u32);
+        println!("endurance run: {n} tracked probes answered, sweep {}, ended by a violation: {}", s.sweep, s.dead);
+        return;
+    }
     if r["world"] == "w5-fdl" {
         let pop: Vec<u8> = r["population"].as_array().unwrap().iter().map(|x| x.as_u64().unwrap() as u8).collect();
         println!("{:?}", under_real_fdl(r["kind"].as_u64().unwrap() as u8, 2, &pop, r["ttr"].as_u64().map(|x| x as u32)));
